@@ -153,7 +153,7 @@ def r_strides(rule, root=None):
             b = builders.get(name)
             t = txt(b.fn["body"]) if b else ""
             param = b.params[1][0] if b else "?"
-            if "letpos=(%d*i32::try_from(%s).unwrap());" % (pstride, param) in t:
+            if "letpos=(%d*%s.try_into().unwrap());" % (pstride, param) in t:
                 rule.ok("%s %s: slot i is at byte %d*i" % (kind, name, pstride), file=p, line=b.fn["ln"])
             else:
                 rule.bad("stride|%s|%s" % (kind, name), "%s %s must address slot i at %d*i bytes" % (kind, name, pstride), "%s:%s" % (p, b.fn["ln"] if b else "?"))
